@@ -714,19 +714,25 @@ func (ctx Ctx) copyExpr(n ast.Node, dst ast.Expr, src ast.Expr) coq.Expr {
 }
 
 func (ctx Ctx) callExpr(s *ast.CallExpr) coq.Expr {
-	if isIdent(s.Fun, "make") {
+	// the builtin functions and types are recognised by name, but only if the
+	// name has not been redeclared by the program
+	isBuiltin := func(name string) bool {
+		id, ok := s.Fun.(*ast.Ident)
+		return ok && id.Name == name && ctx.goBuiltin(id)
+	}
+	if isBuiltin("make") {
 		return ctx.makeExpr(s.Args)
 	}
-	if isIdent(s.Fun, "new") {
+	if isBuiltin("new") {
 		return ctx.newExpr(s.Args[0])
 	}
-	if isIdent(s.Fun, "len") {
+	if isBuiltin("len") {
 		return ctx.lenExpr(s)
 	}
-	if isIdent(s.Fun, "cap") {
+	if isBuiltin("cap") {
 		return ctx.capExpr(s)
 	}
-	if isIdent(s.Fun, "append") {
+	if isBuiltin("append") {
 		elemTy := sliceElem(ctx.typeOf(s.Args[0]).Underlying())
 		if s.Ellipsis == token.NoPos {
 			return coq.NewCallExpr(coq.GallinaIdent("SliceAppend"),
@@ -740,25 +746,25 @@ func (ctx Ctx) callExpr(s *ast.CallExpr) coq.Expr {
 			ctx.expr(s.Args[0]),
 			ctx.expr(s.Args[1]))
 	}
-	if isIdent(s.Fun, "copy") {
+	if isBuiltin("copy") {
 		return ctx.copyExpr(s, s.Args[0], s.Args[1])
 	}
-	if isIdent(s.Fun, "delete") {
+	if isBuiltin("delete") {
 		if _, ok := ctx.typeOf(s.Args[0]).(*types.Map); !ok {
 			ctx.unsupported(s, "delete on non-map")
 		}
 		return coq.NewCallExpr(coq.GallinaIdent("MapDelete"), ctx.expr(s.Args[0]), ctx.expr(s.Args[1]))
 	}
-	if isIdent(s.Fun, "uint64") {
+	if isBuiltin("uint64") {
 		return ctx.integerConversion(s, s.Args[0], 64)
 	}
-	if isIdent(s.Fun, "uint32") {
+	if isBuiltin("uint32") {
 		return ctx.integerConversion(s, s.Args[0], 32)
 	}
-	if isIdent(s.Fun, "uint8") || isIdent(s.Fun, "byte") {
+	if isBuiltin("uint8") || isBuiltin("byte") {
 		return ctx.integerConversion(s, s.Args[0], 8)
 	}
-	if isIdent(s.Fun, "panic") {
+	if isBuiltin("panic") {
 		msg := "oops"
 		if e, ok := s.Args[0].(*ast.BasicLit); ok {
 			if e.Kind == token.STRING {
